@@ -74,8 +74,9 @@ pub struct IntoIter<A, B> {
     pub(crate) aaa_begin: NonNull<A>,
     /// Pointer to the next `B`. Updated as we iterate.
     pub(crate) bbb_begin: NonNull<B>,
-    /// Pointer to the end of the `bbb`. Updated as we iterate.
-    pub(crate) bbb_end: NonNull<B>,
+    /// Number of entries not yet yielded. Updated as we iterate.
+    /// (Not a pointer to the end of `bbb`: `B` may be zero-sized.)
+    pub(crate) rem: usize,
     /// The layout of `Vec2` is `[padding, aaa, bbb]`.
     /// This field is a pointer to `bbb`. Used for `Drop`.
     pub(crate) bbb_ptr: NonNull<B>,
@@ -91,7 +92,7 @@ impl<A, B> Iterator for IntoIter<A, B> {
 
     #[inline]
     fn next(&mut self) -> Option<Self::Item> {
-        if self.bbb_begin == self.bbb_end {
+        if self.rem == 0 {
             None
         } else {
             unsafe {
@@ -99,6 +100,7 @@ impl<A, B> Iterator for IntoIter<A, B> {
                 let b = ptr::read(self.bbb_begin.as_ref());
                 self.aaa_begin = NonNull::new_unchecked(self.aaa_begin.as_ptr().add(1));
                 self.bbb_begin = NonNull::new_unchecked(self.bbb_begin.as_ptr().add(1));
+                self.rem -= 1;
                 Some((a, b))
             }
         }
@@ -131,26 +133,21 @@ impl<A, B> Drop for IntoIter<A, B> {
 impl<A, B> ExactSizeIterator for IntoIter<A, B> {
     #[inline]
     fn len(&self) -> usize {
-        unsafe { self.bbb_end.as_ptr().offset_from(self.bbb_begin.as_ptr()) as usize }
+        self.rem
     }
 }
 
 impl<A, B> DoubleEndedIterator for IntoIter<A, B> {
     fn next_back(&mut self) -> Option<Self::Item> {
-        if self.bbb_begin == self.bbb_end {
+        if self.rem == 0 {
             None
         } else {
             unsafe {
-                self.bbb_end = NonNull::new_unchecked(self.bbb_end.as_ptr().sub(1));
-                let new_len = self.len();
-
-                debug_assert!(ptr::eq(
-                    self.bbb_begin.as_ptr().add(new_len),
-                    self.bbb_end.as_ptr()
-                ));
+                self.rem -= 1;
+                let new_len = self.rem;
 
                 let a = ptr::read(self.aaa_begin.as_ptr().add(new_len));
-                let b = ptr::read(self.bbb_end.as_ptr());
+                let b = ptr::read(self.bbb_begin.as_ptr().add(new_len));
 
                 Some((a, b))
             }
